@@ -30,7 +30,7 @@ def _load():
 
 def _sym_run(name, L, uf, consts=None):
     disp, sw, _ = FN[name]
-    ex = Executor()
+    ex = Executor(loop_bound=L // 4 + 8)
     ex.uf_mul = uf
     st = State()
     if consts is None:
@@ -180,7 +180,8 @@ def main():
         print("translator validation failed:", val["mismatches"], file=sys.stderr)
         return 2
     obs = []
-    for L in range(0, maxL + 1):
+    lengths = list(range(0, maxL + 1)) + ([255, 256, 257, 264] if tier == "quick" else [511, 512, 513])
+    for L in lengths:
         for name in FN:
             obs.append(common.Ob(f"{name} == reference, len {L}", ob_equiv, (name, L, t_uf, t_pr), hard_s=(t_uf + t_pr) / 1000 + 240,
                                  bounds={"key_len": L, "bytes": "symbolic", "seed": "symbolic, full width"}))
@@ -200,7 +201,7 @@ def main():
         print("purity scan found module state read by a hash kernel:", offenders, file=sys.stderr)
     rc = common.finish(
         PID, tier, "model_checking", obs, results, t0=t0, funcs=funcs,
-        bounds={"key_length": f"every length 0..{maxL}, one obligation per (function, length)", "key_bytes": "all 256^L values (symbolic)",
+        bounds={"key_length": f"every length 0..{maxL} plus {[255, 256, 257, 264] if tier == 'quick' else [511, 512, 513]}, one obligation per (function, length)", "key_bytes": "all 256^L values (symbolic)",
                 "seed": "all 2^64 (fasthash64/32) / 2^32 (murmur3) values (symbolic)", "loop_unrolling": "block loops fully unrolled: trip count is concrete once the length is"},
         stubs=["integer multiplication abstracted as uninterpreted MULw(x, c) in the first query of the ladder (sound: unsat under UF implies unsat for bvmul); precise bvmul in the second"],
         assumptions=["little-endian host for np.frombuffer(bytes, uint32/uint64)", "Numba's lowering preserves the typed-IR semantics",
